@@ -47,6 +47,9 @@ DEFAULTS = dict(cfg="sec", m=1, n=0, place="t0top", pid=0, ee=0, kind="section",
 HOOK_LPAE_FAULT = "tlb_lookup_came_from_cache_maintenance"
 
 
+HANG_S = 0.05                       # CPU seconds (ITIMER_VIRTUAL) after which a translate_address() call counts as hung
+
+
 class Hang(BaseException):
     pass
 
@@ -80,7 +83,9 @@ def plan(tier):
     for n in (range(8) if tier != "quick" else (0, 1, 7)):
         shards.append(("instr", "sec", tier, n))
     for cfgname in CONFIGS:
-        shards.append(("special", cfgname, tier))
+        for part in SPECIAL_PARTS:
+            if part != "perm" or cfgname != "sec":
+                shards.append(("special", cfgname, tier, part))
     shards.append(("off", "sec", tier))
     for t0 in range(8):
         shards.append(("ld", "lpae", tier, t0))
@@ -262,6 +267,7 @@ class Ctx:
         self.plan.reset_scratch()
         self.base = self.plan.snapshot()
         self.ix = self.plan.index
+        self.hung = {}
 
 
 def norm_attrs(m):
@@ -272,16 +278,25 @@ def norm_attrs(m):
             "inner": (m.innerattrs, m.innerhints), "outer": (m.outerattrs, m.outerhints)}
 
 
+def raise_site(e):
+    """file:function of the innermost frame (machine.site_of without the source-line lookups)."""
+    tb = e.__traceback__
+    while tb.tb_next is not None:
+        tb = tb.tb_next
+    co = tb.tb_frame.f_code
+    return "%s:%s" % (co.co_filename.split("/armulator/")[-1], co.co_name)
+
+
 def call_translate(cpu, va, priv, write):
     from armulator.armv6.arm_exceptions import DataAbortException
-    signal.setitimer(signal.ITIMER_VIRTUAL, 0.25)
+    signal.setitimer(signal.ITIMER_VIRTUAL, HANG_S)
     try:
         d = cpu.translate_address(va, priv, write, 4, True)
         return ("ok", d.paddress.physicaladdress, d.paddress.ns, norm_attrs(d.memattrs))
     except DataAbortException as e:
         return ("abort", bool(e.second_stage_abort()))
     except NotImplementedError as e:
-        return ("notimpl", machine.site_of(e))
+        return ("notimpl", raise_site(e))
     except Hang:
         return ("hang",)
     except Exception as e:  # noqa - classification of escaping host-level errors is the point
@@ -307,7 +322,7 @@ def mismatch(ctx, exp, got, pre, post_regs, mem_same, write):
     if got[0] == "host":
         return ("raises %s@%s" % (got[1], got[2]), got[3])
     if got[0] == "hang":
-        return ("does-not-terminate", "no result within 0.25 s of CPU time")
+        return ("does-not-terminate", "no result within %.2f s of CPU time (a walk takes about 20 us)" % HANG_S)
     if exp[0] == "fault" and (cfgd.get("have_lpae") or exp[1].ld):
         exp = ("notimpl", HOOK_LPAE_FAULT, exp[1])
     if exp[0] == "notimpl":
@@ -425,6 +440,15 @@ def run_setup(ctx, res, p, extra=False, privs=(True, False), writes=(False, True
             mva = vmsa.fcse_mva(va, p["pid"] << 25)
             w = vmsa.sd_select(loc, mva)[0] if p["m"] and not p["eae"] else which
             site = "%sttbr%d/%s%s" % (tags(p), w, "" if qname in ("first", "last", "interior") else "unmapped-near-", p["kind"])
+            if (p["pd0"] or p["pd1"]) and ctx.cfgd.get("have_security_ext"):
+                # one key per (PD setting, region, direction) whatever the walk would otherwise have produced
+                disabled = vmsa.sd_select(loc, mva)[3]
+                site = "%sttbr%d-region" % (tags(p), w)
+                if disabled and exp[0] == "fault" and got[0] != "notimpl":
+                    m = ("walk-not-disabled", m[1])
+                elif not disabled and ((got[0] == "abort" and fs_name(post_regs[ix["dfsr"]]) == "translation L1") or
+                                       (got[0] == "notimpl" and HOOK_LPAE_FAULT in got[1] and exp[0] == "ok")):
+                    m = ("walk-disabled-by-the-other-region's-bit", m[1])
             rp = dict(p, via="translate", va=va, priv=priv, write=write)
             res.fail("translate %s %s" % (site, m[0]),
                      "va=%#x mva=%#x priv=%d write=%d %s | %s | model: %r" % (va, mva, priv, write, fmt_p(p), m[1], exp), rp)
@@ -461,7 +485,7 @@ def run_shard(arg):
     elif kind == "instr":
         instr_shard(res, ctx, *arg[2:])
     elif kind == "special":
-        special_shard(res, ctx, arg[2])
+        special_shard(res, ctx, arg[2], arg[3])
     elif kind == "off":
         off_shard(res, ctx, arg[2])
     elif kind == "ld":
@@ -478,16 +502,17 @@ def api_shard(res, ctx, tier, n, place):
     quick = tier == "quick"
     doms = (0, 5, 15)
     k = 0
-    for pid, ee, kind in itertools.product((0, 5), (0, 1), MAPPED + ["supersection-pxn"]):
-        if kind == "supersection-pxn" and quick:
-            continue
-        for ap, dacrf, afe in itertools.product(range(8), range(4), (0, 1)):
-            for dom in ((doms[rot(k, 3)],) if quick else doms):
-                for ns in ((0,) if quick else (0, 1)):
-                    k += 1
-                    p = P(n=n, place=place, pid=pid, ee=ee, kind=kind, ap=ap, dom=dom, dacrf=dacrf, afe=afe,
-                          attr=rot(k, 8), ns=ns, prrr=(k // 3) & 1)
-                    run_setup(ctx, res, p, extra=(ap == 3))
+    for pid, ee in itertools.product((0, 5), (0, 1)):
+        for kind in MAPPED + ["supersection-pxn"]:
+            if kind == "supersection-pxn" and quick:
+                continue
+            for ap, dacrf, afe in itertools.product(range(8), range(4), (0, 1)):
+                for dom in ((doms[rot(k, 3)],) if quick else doms):
+                    for ns in ((0,) if quick else (0, 1)):
+                        k += 1
+                        p = P(n=n, place=place, pid=pid, ee=ee, kind=kind, ap=ap, dom=dom, dacrf=dacrf, afe=afe,
+                              attr=rot(k, 8), ns=ns, prrr=(k // 3) & 1)
+                        run_setup(ctx, res, p, extra=(ap == 3))
         # fault descriptors: the domain of a level-2 fault is reported, a level-1 fault has none
         for fk, dom, dacrf, afe in itertools.product(("l1-fault", "l2-fault"), doms, range(4), (0, 1)):
             k += 1
@@ -497,33 +522,40 @@ def api_shard(res, ctx, tier, n, place):
                 "AP=0b101, DACR field client, unprivileged write -> permission fault level 1"})
 
 
-def special_shard(res, ctx, tier):
-    """Sub-products that do not need the full permission product."""
+SPECIAL_PARTS = ("pd", "attrs", "hooks", "perm")
+
+
+def special_shard(res, ctx, tier, part):
+    """Sub-products that do not need the full address x permission product."""
     cfgname = ctx.cfgname
     quick = tier == "quick"
-    kinds5 = MAPPED + ["supersection-pxn"]
+    kinds6 = MAPPED + ["supersection-pxn"]
     ns_list = (0, 1) if ctx.cfgd.get("have_security_ext") else (0,)
-    # (1) TTBCR.PD0 / PD1 (only defined with the Security Extensions; ignored without)
-    for n, (pd0, pd1) in itertools.product(range(8), ((1, 0), (0, 1), (1, 1))):
-        for pl in places(n):
-            for kind, pid, afe, dacrf in itertools.product(("section", "small-page", "l1-fault"), (0, 5), (0, 1), (0, 1, 3)):
-                run_setup(ctx, res, P(cfg=cfgname, n=n, place=pl[0], kind=kind, pid=pid, pd0=pd0, pd1=pd1, afe=afe,
-                                      dacrf=dacrf, ap=(5 if afe else 2)), extra=True)
-    # (2) memory-attribute decode: attribute alphabet x PRRR variant x kind x EE x SCR.NS
-    for kind, attr, prrr, ee, ns, n in itertools.product(kinds5, range(8), (0, 1), (0, 1), ns_list, (0, 3)):
-        run_setup(ctx, res, P(cfg=cfgname, n=n, place="t1bot", kind=kind, attr=attr, prrr=prrr, ee=ee, ns=ns, dacrf=3),
-                  privs=(True,))
-    # (3) mock hooks: SCTLR.TRE = 0 and hardware access-flag management
-    for kind, tre, ha, afe, ap, dacrf, ee in itertools.product(kinds5 + ["l1-fault", "l2-fault"], (0, 1), (0, 1), (0, 1),
-                                                               (0, 1, 2, 3, 6, 7), (0, 1, 3), (0, 1)):
-        if tre == 1 and ha == 0:
-            continue
-        run_setup(ctx, res, P(cfg=cfgname, n=2, place="t0top", kind=kind, tre=tre, ha=ha, afe=afe, ap=ap, dacrf=dacrf, ee=ee))
-    # (4) the whole permission product once more in this configuration (reduced address alphabet)
-    if cfgname != "sec":
+    if part == "pd":
+        # TTBCR.PD0 / PD1 (defined only with the Security Extensions; reserved and ignored without)
+        for n, (pd0, pd1) in itertools.product(range(8), ((1, 0), (0, 1), (1, 1))):
+            for pl in places(n):
+                for kind, pid, afe, dacrf in itertools.product(("section", "small-page", "l1-fault"), (0, 5),
+                                                               (0,) if quick else (0, 1), (0, 1) if quick else (0, 1, 3)):
+                    run_setup(ctx, res, P(cfg=cfgname, n=n, place=pl[0], kind=kind, pid=pid, pd0=pd0, pd1=pd1, afe=afe,
+                                          dacrf=dacrf, ap=(5 if afe else 2)), extra=True)
+    elif part == "attrs":
+        # memory-attribute decode: attribute alphabet x PRRR variant x kind x EE x SCR.NS
+        for kind, attr, prrr, ee, ns, n in itertools.product(kinds6, range(8), (0, 1), (0, 1), ns_list, (0, 3)):
+            run_setup(ctx, res, P(cfg=cfgname, n=n, place="t1bot", kind=kind, attr=attr, prrr=prrr, ee=ee, ns=ns, dacrf=3),
+                      privs=(True,))
+    elif part == "hooks":
+        # mock hooks: SCTLR.TRE = 0 and hardware access-flag management
+        for kind, tre, ha, afe, ap, dacrf, ee in itertools.product(kinds6 + ["l1-fault", "l2-fault"], (0, 1), (0, 1), (0, 1),
+                                                                   (0, 1, 2, 3, 6, 7), (0, 1, 3), (0, 1)):
+            if tre == 1 and ha == 0:
+                continue
+            run_setup(ctx, res, P(cfg=cfgname, n=2, place="t0top", kind=kind, tre=tre, ha=ha, afe=afe, ap=ap, dacrf=dacrf, ee=ee))
+    elif part == "perm" and cfgname != "sec":
+        # the permission product once more in this configuration (reduced address alphabet)
         k = 0
-        for n, kind, ap, dacrf, afe, ee, pid in itertools.product((0, 1, 7) if quick else range(8), kinds5 + ["l1-fault", "l2-fault"],
-                                                                  range(8), range(4), (0, 1), (0, 1), (0, 5)):
+        for n, kind, ap, dacrf, afe, ee, pid in itertools.product((1,) if quick else range(8), kinds6 + ["l1-fault", "l2-fault"],
+                                                                  range(8), range(4), (0, 1), (0, 1), (0,) if quick else (0, 5)):
             for pl in places(n):
                 if quick and pl[0] not in ("t0top", "t1bot"):
                     continue
@@ -531,7 +563,7 @@ def special_shard(res, ctx, tier):
                 run_setup(ctx, res, P(cfg=cfgname, n=n, place=pl[0], kind=kind, ap=ap, dacrf=dacrf, afe=afe, ee=ee, pid=pid,
                                       dom=(0, 5, 15)[rot(k, 3)], attr=rot(k, 8), ns=ns_list[k % len(ns_list)]),
                           extra=(ap == 3))
-    res.sample({"shard": "special", "config": cfgname})
+    res.sample({"shard": "special", "config": cfgname, "part": part})
 
 
 def off_shard(res, ctx, tier):
@@ -560,7 +592,7 @@ def off_shard(res, ctx, tier):
             if post_regs != pre[0] or not mem_same:
                 plan.restore(pre)
     # through instructions: code and data at their physical addresses
-    for insn, mode, pid, off in itertools.product(INSNS, ("usr", "svc"), (0, 5), (0x10, 0xFFC)):
+    for insn, mode, pid, off in itertools.product(INSNS, ("usr", "svc"), (0,), (0x10, 0xFFC)):
         if insn[2] and mode == "usr":
             continue
         p = P(m=0, n=0, place="t1bot", kind="l1-fault", pid=pid, dacrf=0, ram=1)
@@ -716,8 +748,8 @@ def ld_table(next_, aptable, nstable, xntable=0, pxntable=0):
 
 
 def ld_build(ctx, t0sz, t1sz, va, leaf, invalid_at, af, ap21, nsb, aptable, nstable, attridx, ee, epd, ns, pid, inv_form=0):
-    """Tables that map the 4 KB / 2 MB / 1 GB unit containing va with a leaf at level `leaf`.  -> "ttbr0" | "ttbr1" |
-    "none" (va in neither region) | None (this leaf level does not exist below the start level)."""
+    """Tables that map the 4 KB / 2 MB / 1 GB unit containing va with a leaf at level `leaf`.  -> (region, start level),
+    region "ttbr0" | "ttbr1" | "none" (va in neither region); or None (the case does not exist for this start level)."""
     cpu, r = ctx.cpu, ctx.cpu.registers
     ctx.plan.restore(ctx.base)
     r.sctlr.value = SCTLR_BASE | 1 | (1 << 28) | (ee << 25)
@@ -733,11 +765,11 @@ def ld_build(ctx, t0sz, t1sz, va, leaf, invalid_at, af, ap21, nsb, aptable, nsta
     mva = vmsa.fcse_mva(va, pid << 25)
     sel = vmsa.ld_select({"ttbcr": r.ttbcr.value, "ttbr0_64": "ttbr0", "ttbr1_64": "ttbr1"}, mva)
     if sel is None:
-        return "none"
+        return ("none", 0)
     w = 0 if sel[0] == "ttbr0" else 1
     tsz = (t0sz, t1sz)[w]
     start = level = 1 if tsz < 2 else 2
-    if leaf < level:
+    if leaf < level or (invalid_at and invalid_at < level):
         return None
     base = bases[w]
     top = 31 - tsz
@@ -757,7 +789,7 @@ def ld_build(ctx, t0sz, t1sz, va, leaf, invalid_at, af, ap21, nsb, aptable, nsta
         wr64(cpu, a, ld_table(nxt, aptable if level == start else 0, nstable if level == start else 0), ee)
         base = nxt
         level += 1
-    return sel[0]
+    return (sel[0], start)
 
 
 def ld_shard(res, ctx, tier, t0sz):
@@ -777,7 +809,7 @@ def ld_shard(res, ctx, tier, t0sz):
             inv_form = (k >> 5) & 1
             w = ld_build(ctx, t0sz, t1sz, va, leaf, invalid_at, af, ap21, nsb, aptable, nstable, attridx, ee, epd, ns, pid,
                          inv_form)
-            if w is None or (w == "none" and (leaf != 3 or invalid_at or ap21 or aptable)):
+            if w is None or (w[0] == "none" and (leaf != 3 or invalid_at or ap21 or aptable)):
                 continue
             ld_queries(ctx, res, dict(t0sz=t0sz, t1sz=t1sz, va=va, leaf=leaf, invalid_at=invalid_at, af=af, ap21=ap21,
                                       aptable=aptable, nsb=nsb, nstable=nstable, attridx=attridx, ee=ee, ns=ns, pid=pid, epd=epd,
@@ -796,21 +828,30 @@ def ld_queries(ctx, res, q, wname):
     loc = dict(zip(plan.names, pre[0]))
     mem = Flat(pre[1])
     va = q["va"]
+    hsite = (wname, q["leaf"], q["invalid_at"], q["t1sz"] == 0)
     for priv, write in itertools.product((True, False), (False, True)):
+        if ctx.hung.get(hsite, 0) >= 2:
+            res.count("ld-cases-skipped-after-two-hangs-at-the-same-site")
+            continue
         res.cases += 1
         res.add_state(hash((tuple(sorted(q.items())), priv, write)))
         exp = vmsa.translate(loc, ctx.cfgd, mem, va, priv, write)
         got = call_translate(cpu, va, priv, write)
+        if got[0] == "hang":
+            ctx.hung[hsite] = ctx.hung.get(hsite, 0) + 1
         res.transitions += 1
         post_regs = plan.regs()
         mem_same = plan.mem() == pre[1]
         res.outcome("LD " + outcome_label(exp))
         m = judge(ctx, exp, got, pre, post_regs, mem_same, write)
         if m is not None:
-            site = "long-descriptor %s/%s" % (wname, ("invalid-L%d" % q["invalid_at"]) if q["invalid_at"] else
-                                              ("L%d-%s" % (q["leaf"], "page" if q["leaf"] == 3 else "block")))
-            if q["epd"] != (0, 0):
-                site = "long-descriptor EPD0=%d,EPD1=%d %s" % (q["epd"][0], q["epd"][1], wname)
+            region, start = wname
+            # the region is part of the site only where a region-selection defect would show (T1SZ = 0)
+            site = "long-descriptor %sstart-L%d/%s" % (
+                ("T1SZ=0 %s/" % region) if q["t1sz"] == 0 else "", start,
+                ("invalid-L%d" % q["invalid_at"]) if q["invalid_at"] else ("L%d-%s" % (q["leaf"], "page" if q["leaf"] == 3 else "block")))
+            if exp[0] == "fault" and exp[1].kind == "translation" and exp[1].level == 1 and q["epd"] != (0, 0):
+                site = "long-descriptor EPD0=%d,EPD1=%d %s" % (q["epd"][0], q["epd"][1], region)
             res.fail("translate %s %s" % (site, m[0]), "priv=%d write=%d %r | %s | model: %r" % (priv, write, q, m[1], exp),
                      dict(q, via="translate-ld", priv=priv, write=write))
         if post_regs != pre[0] or not mem_same:
